@@ -262,6 +262,13 @@ pub fn stages(ctx: &Ctx) -> Vec<Stage> {
             cfg.dt_max *= rng.r(2.0, 20.0);
             cfg.t1 = cfg.t0 + cfg.dt_max * rng.log10(-0.7, 2.5);
         }
+        if rng.chance(0.1) {
+            // an interval far from the origin: t + dt is then rounded to a coarser grid than dt itself
+            let shift = rng.sign() * rng.log10(2.0, 5.0);
+            cfg.t0 += shift;
+            cfg.t1 = cfg.t0 + (cfg.t1 - (cfg.t0 - shift));
+            rep.count("random_cases_far_from_the_origin", 1);
+        }
         if rng.chance(0.25) {
             // a minimum step that is a sizeable fraction of the maximum (a solve may then legitimately
             // end in MinimumTimeDeltaExceeded; its prefix is judged all the same)
